@@ -282,6 +282,19 @@ def run(R):
         R.check(len(de) == 1 and mentions_call(dc.origin(de[0][1]['args'][1]), name='split_to') and (constdef(dc.origin(de[0][1]['args'][0])) or '').endswith('base64::STANDARD'), 'C16.R5', 'decode-that-prefix', site(dc), 'STANDARD.decode(buf.split_to(index))')
         me = dc.calls(name='map_err')
         R.check(len(me) == 1, 'C16.R5', 'decode-error-is-value', site(dc), 'base64 errors are mapped to a Status (map_err sites: %d)' % len(me))
+        # "not enough to decode yet" (Ok(None)) only below one base64 quantum (4 characters): a larger threshold holds back the last
+        # quantum of a body forever
+        nones = [bb for bb, i_, p_, a_, ops_ in returned_aggs(dc, 'result::Result', 'Ok') if strip_refs(dc.origin(ops_[0]))[0] == 'agg' and strip_refs(dc.origin(ops_[0]))[1].get('variant') == 'None']
+        R.floor('C16.R5', 'Ok(None) returns of decode_chunk', len(nones), 1)
+        for nb in nones:
+            ths = []
+            for s_ in [x for x in sorted(dc.live_blocks()) if dc.term(x)['k'] == 'switch' and nb in dc.reachable(x)]:
+                o_ = mirlib.norm_cmp(dc.origin(dc.term(s_)['on']))
+                if o_[0] == 'bin' and o_[1] in ('Gt', 'Ge') and isinstance(const_val(o_[2]), int) and term_contains(o_[3], lambda x: is_call(x, name='len') or is_call(x, name='remaining')):
+                    ths.append(const_val(o_[2]) + (1 if o_[1] == 'Ge' else 0))
+                elif o_[0] == 'bin' and o_[1] in ('Gt', 'Ge') and isinstance(const_val(o_[3]), int) and term_contains(o_[2], lambda x: is_call(x, name='len') or is_call(x, name='remaining')):
+                    ths.append(None)
+            R.check(bool(ths) and all(isinstance(k_, int) and k_ <= 4 for k_ in ths), 'C16.R5', 'wait-only-below-one-quantum', site(dc, nb), 'decode_chunk waits for more input only while len < %r (must be <= 4, the base64 quantum max_decodable() rounds to)' % ths)
         pdx = web.body('call::GrpcWebCall::<B>::poll_decode')
         R.saw(pdx)
         # at inner end: has_remaining(buf) true -> Err
